@@ -491,9 +491,6 @@ Proof.
       rewrite Hp. exists p'. split; [reflexivity|exact HR].
     + cbn [prun]. rewrite (sim_sql_guard cf st p i f _ conns c s K R H H0 H2).
       exists p. split; [reflexivity|]. eapply Rel_silent_task; eauto; cbn; try discriminate; auto.
-    + cbn [prun]. rewrite (sim_sql_guard cf st p i f _ conns c s K R H H0 H2).
-      exists p. split; [reflexivity|]. eapply Rel_silent_task; eauto; cbn [open_of had_of post_run settled]; try discriminate; auto.
-      intros S _. right. split; [|reflexivity]. destruct (map snd conns); [reflexivity|discriminate S].
     + exists p. split; [reflexivity|]. eapply Rel_silent_task; eauto; cbn; try discriminate; auto.
     + exists p. split; [reflexivity|]. eapply Rel_silent_task; eauto; cbn; try discriminate; auto.
     + cbn [prun]. destruct (sim_close cf st p i f r open had s K Wf D R H H0 H1) as [p' [Hp HR]].
